@@ -248,6 +248,9 @@ class Interp:
         vals = list(uniq.values())
         if len(vals) == 1:
             return vals[0]
+        vals = subsume_zero(vals)
+        if len(vals) == 1:
+            return vals[0]
         return join_all(vals)
 
     def eval_default(self, fn, name, node):
@@ -942,8 +945,14 @@ class Interp:
             self.np.check_store(base, region, v, target, st)
             # facets of the holder change
             if isinstance(target.value, ast.Name):
-                nb = base.copy(orth=None, taint=base.taint | v.taint, lg=None,
-                               nonneg=False, normed=False)
+                keep_orth = base.orth if (base.orth == 'eig' and
+                                          v.has_const() and v.c == 0) else None
+                zero = v.has_const() and isinstance(v.c, (int, float)) and \
+                    v.c == 0
+                nb = base.copy(orth=keep_orth, taint=base.taint | v.taint,
+                               lg=base.lg if (zero or (v.lg is not None and
+                                                        v.lg == base.lg))
+                               else None, nonneg=False, normed=False)
                 if base.note == 'zeros' and v.deg is not None and \
                         (base.deg in (None, {}) or base.deg == v.deg):
                     nb.deg = v.deg
@@ -1692,6 +1701,76 @@ def unfork_env(env, pairs):
     seen = set()
     return {n: (_map_back(v, rev, seen) if isinstance(v, AV) else v)
             for n, v in env.items()}
+
+
+def _int_atoms(v, acc):
+    if v is None:
+        return
+    if v.k in ('tuple', 'list') and v.items is not None:
+        for x in v.items:
+            _int_atoms(x, acc)
+        return
+    if v.p is not None:
+        for a in v.p.atoms():
+            if isinstance(a, tuple) and a and a[0] in ('int', 'ilog2'):
+                acc.add(a)
+    if v.lg is not None:
+        for a in v.lg.t:
+            if isinstance(a, tuple) and a and a[0] in ('int', 'ilog2'):
+                acc.add(a)
+
+
+def _zero_inst(v, atoms):
+    """Ledger-relevant facets of v with the given exponent symbols := 0."""
+    if v.k in ('tuple', 'list') and v.items is not None:
+        return tuple(_zero_inst(x, atoms) for x in v.items)
+    p = v.p.subs({a: 0 for a in atoms}).key() if v.p is not None else None
+    lg = None
+    if v.lg is not None:
+        lg = Lin(v.lg.c, {a: c for a, c in v.lg.t.items()
+                          if a not in atoms}).key()
+    dims = None if v.dims is None else tuple(
+        None if d is None else d.key() for d in v.dims)
+    return (v.k, p, lg, dims)
+
+
+def subsume_zero(vals):
+    """Drop a return value that is the instance "all fresh exponent symbols
+    = 0" of another one (e.g. core_stab: (G, p0) is (G / 2**p, p0 + p) at
+    p = 0); storage origins and taints are merged into the survivor."""
+    keep = list(vals)
+    changed = True
+    while changed and len(keep) > 1:
+        changed = False
+        for i, small in enumerate(keep):
+            for j, big in enumerate(keep):
+                if i == j:
+                    continue
+                sa, sb = set(), set()
+                _int_atoms(small, sa)
+                _int_atoms(big, sb)
+                extra = sb - sa
+                if not extra:
+                    continue
+                if _zero_inst(big, extra) == _zero_inst(small, set()):
+                    keep[j] = _merge_org(big, small)
+                    del keep[i]
+                    changed = True
+                    break
+            if changed:
+                break
+    return keep
+
+
+def _merge_org(big, small):
+    if big.k in ('tuple', 'list') and big.items is not None and \
+            small.items is not None and len(big.items) == len(small.items):
+        n = big.copy()
+        n.items = [_merge_org(a, b) for a, b in zip(big.items, small.items)]
+        return n
+    if big.k in ('arr', 'float', 'top'):
+        return big.copy(org=big.org | small.org, taint=big.taint | small.taint)
+    return big
 
 
 def snapshot(v, memo=None):
